@@ -162,7 +162,7 @@ class KNNSupervisedOPF(OPF):
                     "Pre-computed distance matrix should have the size of `n_nodes x n_nodes`"
                 )
 
-        max_acc = 0.0
+        max_acc = -1.0
 
         for k in range(1, self.max_k + 1):
             self.subgraph.best_k = k
